@@ -45,6 +45,12 @@ func (r *ResponseFilter) Filter(msg proto.Message) {
 		proto.Reset(msg)
 		return
 	}
+	if !r.fields.IsValid(msg) {
+		// fmutils panics on paths that continue through a scalar, repeated or map field;
+		// an invalid mask (see Validate) selects nothing
+		proto.Reset(msg)
+		return
+	}
 	fmutils.Filter(msg, r.paths())
 }
 
@@ -62,6 +68,11 @@ func (r *ResponseFilter) FilterClone(msg proto.Message) proto.Message {
 		return clone
 	}
 	clone := proto.Clone(msg)
+	if !r.fields.IsValid(msg) {
+		// see Filter: an invalid mask selects nothing instead of making fmutils panic
+		proto.Reset(clone)
+		return clone
+	}
 	fmutils.Filter(clone, r.paths())
 	return clone
 }
